@@ -13,7 +13,7 @@ ANCHORS = ["pyoma2.functions.gen:merge_mode_shapes", "pyoma2.functions.gen:MSF",
 REQUIRED_MONITORS = ["merge-is-repeatable", "merge@function", "merge@PoSER.synthetic", "merge@PoSER.ssi", "stats@PoSER", "roworder@flatten", "two-campaigns", "names@PoSER.def_geo1"]
 ALL_STATES = ["factors:generic", "factors:+-1 only", "entries:real", "entries:complex", "rov:some setup has none",
               "refs:permuted differently per setup", "nref=1", "nref>1"]
-REQUIRED_STATES = ["a roving position measured in two setups (repeated name)", "factors:generic", "entries:complex", "refs:permuted differently per setup", "global shapes of magnitude < 1e-3", "result object replaced after construction", "two modes with the same frequency", "geometry names from setups of different channel counts", "a reference sensor on a node of a mode", "first setup's shapes of integer type"]
+REQUIRED_STATES = ["a mode whose reference part has a vanishing bilinear form (sensors in quadrature)", "a roving position measured in two setups (repeated name)", "factors:generic", "entries:complex", "refs:permuted differently per setup", "global shapes of magnitude < 1e-3", "result object replaced after construction", "two modes with the same frequency", "geometry names from setups of different channel counts", "a reference sensor on a node of a mode", "first setup's shapes of integer type"]
 RULE = ("global matrices G (1..8 modes, real/complex), 2..5 setups, 1..4 references, 0..5 roving per setup, channel lists randomly "
         "permuted per setup, factors +-[0.05,20] per setup and mode; merged result compared with c_1k*[G_ref;G_rov1;...] (rel 1e-10), "
         "row order with flatten_sns_names; PoSER statistics with statistics.pstdev; non-trivial = at least one factor ratio "
@@ -75,7 +75,13 @@ def judge_merge(ctx, tag, M, G, c, nref, nrov, chan_glob, reflist, rtol, sigp):
     for k in range(G.shape[1]):
         g = G[:nref, k]
         if abs(np.sum(g * g)) < 1e-6 * np.vdot(g, g).real:
-            ctx.not_judged("isotropic reference vector (sum phi^2 ~ 0)")
+            # the reference part of this mode has a vanishing bilinear form g^T g (two sensors in quadrature on a whirling mode, three
+            # sensors 120 degrees apart on a ring): the scale factor between the setups is well defined (g^H g != 0), the library's is 0/0
+            err_ = np.abs(M[:, k] - E[:, k]) / np.max(np.abs(E[:, k]))
+            if sigp == "fn" and not (err_.max() <= rtol):
+                ctx.fail("fn:isotropic_reference_part", f"{tag}: mode {k} whose reference part g has |g^T g| / g^H g = {abs(np.sum(g * g)) / np.vdot(g, g).real:.1e}: merged shape off by {err_.max():.3g} (relative)")
+            else:
+                ctx.not_judged("isotropic reference vector (sum phi^2 ~ 0)")
             continue
         err = np.abs(M[:, k] - E[:, k]) / np.max(np.abs(E[:, k]))
         ctx.maxi(f"{tag}: worst relative error", float(err.max()))
@@ -125,6 +131,18 @@ def run_fn(ctx, rng):
             if rng.random() < 0.5:
                 G[int(rng.integers(0, nref)), k] = 0.0
         ctx.state("a reference sensor on a node of a mode")
+    if getattr(run_fn, "circular", False) and nref >= 2:
+        # a mode whose reference sensors move in quadrature (x / y sensors on a whirling mode: (1, i); three sensors around a ring: (1, w, w^2))
+        G = G.astype(complex)
+        k_ = int(rng.integers(0, nmodes))
+        a_ = complex(rng.standard_normal(), rng.standard_normal()) * mag
+        G[:nref, k_] = 0
+        if nref >= 3 and rng.random() < 0.5:
+            w_ = np.exp(2j * np.pi / 3)
+            G[:3, k_] = a_ * np.array([1, w_, w_**2])
+        else:
+            G[:2, k_] = a_ * np.array([1, 1j])
+        ctx.state("a mode whose reference part has a vanishing bilinear form (sensors in quadrature)")
     if mag < 1e-3:
         ctx.state("global shapes of magnitude < 1e-3")
     c = factors(rng, nset, nmodes, pm1=rng.random() < 0.1)
@@ -345,4 +363,5 @@ def run_ssi(ctx, rng):
 
 def run_case(ctx, case):
     rng = gen.rng_of(case)
+    run_fn.circular = case["cls"] == "fn_merge" and case["k"] % 12 == 5
     {"fn_merge": run_fn, "poser_synthetic": run_synth, "poser_ssi": run_ssi}[case["cls"]](ctx, rng)
